@@ -231,7 +231,7 @@ def build_function(api, owner, shape: int, names: Names, *, method_kind: int = 0
         p(type_=UnionType([LiteralType(["b"]), LiteralType([2]), NONE]))
         p(type_=TupleType([STR]), kind=PA.POSITIONAL_VARARG)
         r(UnionType([LiteralType([True]), NONE]))
-    doc = f"Doc of {fname}.\n\nSecond paragraph." if docs else ""
+    doc = f"Doc of {fname}.\n\nSecond paragraph of {fname}." if docs else ""
     if fname == "__init__":
         results, result_docs = [], []
     return mk_function(
